@@ -228,8 +228,11 @@ MustRefuse(w, req) == MustRefuseF(FailSets(w, req))
 SoleRulesF(fs) == IF ~MustRefuseF(fs) THEN {} ELSE {r \in RuleNames : {r} \in fs}
 SoleRules(w, req) == SoleRulesF(FailSets(w, req))
 \* smallest set of failed rules over the assignments (named in the finding key)
+\* (an assignment whose VALUES fit is preferred to one whose values do not: that is the reading under which
+\* the close could have been meant, and its remaining failed rule is the informative one)
+FailRank(f) == Cardinality(f) + (IF "value" \in f THEN 100 ELSE 0)
 MinFailF(fs) == IF fs = {} THEN {"shape"}
-                ELSE CHOOSE f \in fs : \A x \in fs : Cardinality(f) <= Cardinality(x)
+                ELSE CHOOSE f \in fs : \A x \in fs : FailRank(f) <= FailRank(x)
 MinFail(w, req) == MinFailF(FailSets(w, req))
 \* arithmetic extreme of the fee (part of the finding key): the true fee rate does not fit 32 bits /
 \* fee * 1000 does not fit 64 bits
@@ -310,12 +313,22 @@ ImplDecode(w, req, K) ==
                 ELSE LET hf == Asg(o[1].v, o[2].v, o[1].s, o[2].s, o[1].hint)
                          cf == Asg(o[2].v, o[1].v, o[2].s, o[1].s, o[2].hint) IN
                      IF hl THEN <<cf, hf>> ELSE <<hf, cf>>
-        likely == ImplValidate(w, pair[1], K) IN
-    IF likely.ok \/ ImplValidate(w, pair[2], K).ok
-    THEN (IF req.canon THEN Ok ELSE Err("recomposed"))
-    ELSE likely
+        \* first the likely assignment, then - only if that one is refused - the unlikely one; each attempt
+        \* validates ITS OWN values, scripts and path hint; the error reported is the likely attempt's
+        likely == ImplValidate(w, pair[1], K)
+        unlikely == ImplValidate(w, pair[2], K)
+        fin == IF req.canon THEN Ok ELSE Err("recomposed") IN
+    IF likely.ok THEN [ok |-> fin.ok, tag |-> fin.tag, attempt |-> "likely", utag |-> "-"]
+    ELSE IF unlikely.ok THEN [ok |-> fin.ok, tag |-> fin.tag, attempt |-> "unlikely", utag |-> "ok"]
+    \* (a panic inside the fallback attempt is what the caller sees)
+    ELSE [ok |-> FALSE, tag |-> IF likely.tag # "panic" /\ unlikely.tag = "panic" THEN "panic" ELSE likely.tag,
+          attempt |-> "both_failed", utag |-> unlikely.tag]
 
-ImplStep(w, req, K) == IF req.entry = "p2" THEN ImplValidate(w, req.a, K) ELSE ImplDecode(w, req, K)
+\* [ok, tag] as the code answers; for phase 1 also which decoding attempt decided (attempt: "likely",
+\* "unlikely" = the fallback, "both_failed", "-" refused before decoding) and the fallback's own verdict
+ImplStep(w, req, K) ==
+  LET r == IF req.entry = "p2" THEN ImplValidate(w, req.a, K) ELSE ImplDecode(w, req, K) IN
+  IF "attempt" \in DOMAIN r THEN r ELSE [ok |-> r.ok, tag |-> r.tag, attempt |-> "-", utag |-> "-"]
 
 ---------------------------------------------------------------------------
 (***************************************************************************)
@@ -340,7 +353,8 @@ IsViolation(v) == v \in {"signed_must_refuse", "bad_signature_target", "not_mark
 ---------------------------------------------------------------------------
 (***************************************************************************)
 (* Abstract case matrix.                                                   *)
-(* Abstract state  s = [dir, pol, mag, hist, nb, skew, htlc, upfront, pre]  *)
+(* Abstract state  s = [dir, pol, mag, hist, nb, skew, pskew, htlc, upfront, *)
+(*                      pre]                                                *)
 (*  dir   "out" the holder funds the channel (pays the fee) / "in"          *)
 (*  pol   policy index                                                     *)
 (*  mag   "n" 0.03 BTC channel, "g" 60 BTC (fees with a true rate >= 2^32   *)
@@ -354,9 +368,14 @@ IsViolation(v) == v \in {"signed_must_refuse", "bad_signature_target", "not_mark
 (*        commitment (the signer still holds it as the previous one)        *)
 (*  nb    balance of the non-fee-paying side in the holder's commitment:    *)
 (*        "typ", "small" (within epsilon of nothing, or just above dust if  *)
-(*        epsilon is below dust), "zero"                                    *)
+(*        epsilon is below dust), "zero", "half" (both sides own the same)  *)
 (*  skew  (its balance in the counterparty's commitment) - (in the holder's)*)
 (*        in units: 0, "e" = eps, "-e", "2e", "2e1" = 2 eps + 1             *)
+(*  pskew (the FEE PAYER's balance in the counterparty's commitment) - (in  *)
+(*        the holder's), the two commitments carrying different fees as in  *)
+(*        the middle of a fee update: "0", "e", "-e", "e1" = eps + 1,       *)
+(*        "-e1", "big" (the counterparty's commitment pays the highest fee  *)
+(*        the policy allows).  The non-payer's balance is not affected.     *)
 (*  htlc  where an HTLC is pending: "none", "H", "C", "both"                *)
 (*  upfront  "none", "W7n", "S1" (allowlisted when the channel was opened)  *)
 (*  pre   "none" / "closed": a correct close was already signed before      *)
@@ -374,6 +393,7 @@ CommitFee(p, n) == CeilDiv(Pol(p).typ * CommitWeight(n), 1000)
 
 NbH(s) == CASE s.nb = "typ" -> 1000000
             [] s.nb = "zero" -> 0
+            [] s.nb = "half" -> (3000000 - CommitFee(s.pol, 0)) \div 2
             [] s.nb = "small" -> IF Pol(s.pol).eps >= DUST THEN Pol(s.pol).eps \div 2 + DUST \div 2 ELSE DUST
 \* non-payer balance in the initial commitments: different from the current one, except that in "updp"
 \* histories the counterparty's stale initial commitment agrees with the holder's CURRENT commitment
@@ -383,35 +403,44 @@ SkewOf(s) == LET e == Pol(s.pol).eps IN
              CASE s.skew = "0" -> 0 [] s.skew = "e" -> e [] s.skew = "-e" -> 0 - e
                [] s.skew = "2e" -> 2 * e [] s.skew = "2e1" -> 2 * e + 1
 NbC(s) == NbH(s) + SkewOf(s)
+MaxCommitFee(p) == (Pol(p).maxr * CommitWeight(0)) \div 1000 - 1
+PSkewOf(s) == LET e == Pol(s.pol).eps IN
+              CASE s.pskew = "0" -> 0 [] s.pskew = "e" -> e [] s.pskew = "-e" -> 0 - e
+                [] s.pskew = "e1" -> e + 1 [] s.pskew = "-e1" -> 0 - e - 1
+                [] s.pskew = "big" -> 0 - (MaxCommitFee(s.pol) - CommitFee(s.pol, 0))
 HtlcsIn(s, side) == IF s.htlc = "both" \/ s.htlc = side THEN 1 ELSE 0
 HasBoth(s) == s.hist \in {"init", "upd", "updp"}
 
 \* content of a commitment: [h to holder, c to counterparty, n #HTLCs] (Big amounts)
-Content(s, nb, n) ==
-  LET payer == BSub(Chv(s.mag), B(nb + HTLCV * n + CommitFee(s.pol, n))) IN
+\* (adj: the fee payer gets adj more, i.e. this commitment's fee is adj lower than the typical one)
+Content(s, nb, n, adj) ==
+  LET payer == BSub(Chv(s.mag), B(nb + HTLCV * n + CommitFee(s.pol, n) - adj)) IN
   IF s.dir = "out" THEN [h |-> payer, c |-> B(nb), n |-> n] ELSE [h |-> B(nb), c |-> payer, n |-> n]
-Content0(s) == Content(s, NB0(s), 0)
-ContentH(s) == Content(s, NbH(s), HtlcsIn(s, "H"))
-ContentC(s) == Content(s, NbC(s), HtlcsIn(s, "C"))
+Content0(s) == Content(s, NB0(s), 0, 0)
+ContentH(s) == Content(s, NbH(s), HtlcsIn(s, "H"), 0)
+ContentC(s) == Content(s, NbC(s), HtlcsIn(s, "C"), PSkewOf(s))
 
 ValidAmount(x) == x = 0 \/ x >= DUST
 ValidState(s) ==
   /\ (s.hist \in {"fresh", "noC", "noH"} => s.nb = "typ" /\ s.skew = "0" /\ s.htlc = "none")
   /\ (s.hist = "init" => s.htlc = "none")
   /\ ValidAmount(NbH(s)) /\ ValidAmount(NbC(s))
-  /\ (s.pre = "closed" => HasBoth(s) /\ s.htlc = "none" /\ s.skew = "0")
-  /\ (s.mag # "n" => s.pol = 1)
+  /\ (s.pre = "closed" => HasBoth(s) /\ s.htlc = "none" /\ s.skew = "0" /\ s.pskew = "0")
+  /\ (s.mag # "n" => s.pol = 1 /\ s.nb # "half")
+  /\ (s.pskew # "0" => HasBoth(s))
+  /\ (s.pskew \in {"e", "-e"} => Pol(s.pol).eps > 0)
 
 GoodState(dir, pol) == [dir |-> dir, pol |-> pol, mag |-> "n", hist |-> "upd", nb |-> "typ", skew |-> "0",
-                        htlc |-> "none", upfront |-> "none", pre |-> "none"]
+                        pskew |-> "0", htlc |-> "none", upfront |-> "none", pre |-> "none"]
 StateDom(f) == CASE f = "mag" -> {"n", "g", "a"}
                  [] f = "hist" -> {"fresh", "noC", "noH", "init", "upd", "updp"}
-                 [] f = "nb" -> {"typ", "small", "zero"}
+                 [] f = "nb" -> {"typ", "small", "zero", "half"}
                  [] f = "skew" -> {"0", "e", "-e", "2e", "2e1"}
+                 [] f = "pskew" -> {"0", "e", "-e", "e1", "-e1", "big"}
                  [] f = "htlc" -> {"none", "H", "C", "both"}
                  [] f = "upfront" -> {"none", "W7n", "S1"}
                  [] f = "pre" -> {"none", "closed"}
-StateFields == {"mag", "hist", "nb", "skew", "htlc", "upfront", "pre"}
+StateFields == {"mag", "hist", "nb", "skew", "pskew", "htlc", "upfront", "pre"}
 Dev1States(S) == S \cup UNION {{[s EXCEPT ![f] = v] : v \in StateDom(f)} : s \in S, f \in StateFields}
 RECURSIVE StatesWithin(_, _)
 StatesWithin(S, k) == IF k = 0 THEN S ELSE StatesWithin(Dev1States(S), k - 1)
@@ -554,6 +583,33 @@ PlausibleReq(s, r) ==
   /\ NvOf(s, r) >= 0
 ValidReq(s, r) == PlausibleReq(s, r) /\ ValuesOf(s, r).ok
 
+(***************************************************************************)
+(* The "guess" block of the matrix (phase 1 only, every tier).  Phase 1 has *)
+(* to find out which output is the holder's: the code guesses an assignment *)
+(* from the two commitments and falls back to the other one.  Which guess   *)
+(* is made, and whether it survives, depends on how the two current         *)
+(* commitments DISAGREE: on the non-payer's balance (skew) or on the fee    *)
+(* payer's (pskew), by less than, exactly, and more than epsilon, in both   *)
+(* directions, and on balances being equal (nb = "half").  In all these     *)
+(* states: both output orders, holder script owned / allowlist candidate /  *)
+(* foreign, counterparty script foreign / allowlist candidate / a wallet    *)
+(* script, the allowlist with and without that candidate, the path hint on  *)
+(* the holder's output / both (wide: / on the counterparty's only), with    *)
+(* and without an upfront script fixed to the allowlist candidate.          *)
+(***************************************************************************)
+GuessStates ==
+  {s \in UNION {{[GoodState(d, p) EXCEPT !.pskew = k, !.upfront = u] : k \in {"e", "-e", "e1", "-e1", "big"}}
+                 \cup {[GoodState(d, p) EXCEPT !.skew = k, !.upfront = u] : k \in {"e", "-e", "2e", "2e1"}}
+                 \cup {[GoodState(d, p) EXCEPT !.nb = "half", !.upfront = u]}
+                  : d \in {"out", "in"}, p \in {1, 2}, u \in {"none", "S1"}} : ValidState(s)}
+GuessReqs(s, wide) ==
+  {r \in {[GoodReq(s, "p1") EXCEPT !.order = o, !.hscr = h, !.cscr = c, !.allow = a, !.hintpos = hp,
+                                   !.hint = "p7", !.d = dd] :
+            o \in {"canon", "swap"}, h \in {"W7n", "F", "S1"}, c \in {"C1", "S1", "W7n"}, a \in {{}, {"S1"}},
+            hp \in IF wide THEN {"h", "c", "both"} ELSE {"h", "both"},
+            dd \in IF wide THEN {"0", "e", "-e", "mid"} ELSE {"0"}} : PlausibleReq(s, r)}
+GuessReqsOf(s, wide) == IF s \in GuessStates THEN GuessReqs(s, wide) ELSE {}
+
 PlausibleReqs(s, k) == {r \in ReqsWithin({GoodReq(s, "p1"), GoodReq(s, "p2")}, k) : PlausibleReq(s, r)}
 AbsReqs(s, k) == {r \in PlausibleReqs(s, k) : ValuesOf(s, r).ok}
 
@@ -561,21 +617,23 @@ AbsReqs(s, k) == {r \in PlausibleReqs(s, k) : ValuesOf(s, r).ok}
 (* The judged form of a concrete request (what ImplMutualClose rebuilds     *)
 (* from the harness log, and what leg A evaluates directly): for p1 the     *)
 (* outputs as the harness lays them out.  An output exists iff its value is *)
-(* non-zero; "swap" reverses the canonical order, which the model does not  *)
-(* know (it depends on script bytes): leg A treats both orders of two       *)
-(* outputs alike except for `canon`.                                        *)
+(* non-zero; the canonical order is by value (equal values are ordered by   *)
+(* script bytes, which the model does not know: the holder's first there),  *)
+(* "swap" reverses it.                                                      *)
 (***************************************************************************)
 HintAt(c, pos) == IF c.hintpos = "both" \/ c.hintpos = pos THEN c.a.hint ELSE "m"
 JudgedReq(c) ==
   IF c.entry = "p2" THEN [entry |-> "p2", a |-> c.a]
   ELSE LET ho == IF BZero(c.a.vh) THEN <<>> ELSE <<[v |-> c.a.vh, s |-> c.a.sh, hint |-> HintAt(c, "h")]>>
            co == IF BZero(c.a.vc) THEN <<>> ELSE <<[v |-> c.a.vc, s |-> c.a.sc, hint |-> HintAt(c, "c")]>>
-           base == ho \o co
+           \* canonical (BIP69) order: smaller value first; "swap" reverses it
+           sorted == IF ho # <<>> /\ co # <<>> /\ BLt(c.a.vc, c.a.vh) THEN co \o ho ELSE ho \o co
+           base == IF c.order = "swap" /\ Len(sorted) = 2 THEN <<sorted[2], sorted[1]>> ELSE sorted
            extra == [v |-> B(1000), s |-> Scr("F"), hint |-> "m"]
            outs == CASE c.form = "out3" -> base \o <<extra>>
                      [] c.form = "noout" -> <<>>
                      [] OTHER -> base IN
        [entry |-> "p1", outs |-> outs,
         npaths |-> IF c.form = "pathshort" THEN Len(outs) - 1 ELSE Len(outs),
-        canon |-> c.form \in {"ok", "out3", "noout", "pathshort"} /\ c.order = "canon"]
+        canon |-> c.form \in {"ok", "out3", "noout", "pathshort"} /\ (c.order = "canon" \/ Len(sorted) < 2)]
 =============================================================================
